@@ -10,6 +10,12 @@ PENDING = "check under construction in this session; will be claimed once its ha
 NOT_APPLICABLE = {("C%02d" % i): PENDING for i in range(1, 21)}
 
 TEXT = {
+    "C06": dict(
+        engine="E1 vnet",
+        technique="property-based testing (rapid): generated pre-stabilisation schedules and Byzantine histories followed by a harness-owned timely regime; bounded-liveness oracle",
+        level_text="Generated pre-stabilisation prefix (arbitrary delay/reorder/duplication, staggered starts, crash-silent members, gate/laggard schedules that drive participants several rounds apart, Byzantine history below one third, no loss between honest participants), then the timely regime owned by the harness (time-ordered delivery within Delta, alarms on time, silent coalition, honest strong quorum). Violation = an honest participant exceeds round R+6 (no Byzantine message ever) / R+40 before every started honest participant decided, or the system is quiescent without a decision. Bounded liveness is the most this technique can decide about 'eventually'.",
+        level_note="The bound is taken from the property statement. Step-budget exhaustion is inconclusive, never a violation. Back-off exponent capped (1.5 / 1.3) and prefix rounds capped at 12 so that timeouts fit time.Duration.",
+    ),
     "C01": dict(
         engine="E1 vnet",
         technique="property-based testing (rapid) of generated schedules and adaptive <1/3 Byzantine strategies on real gpbft.Participants; invariant over the history of reported decisions",
